@@ -3,6 +3,16 @@ use crate::runner::Report;
 use serde_json::Value;
 
 pub mod c01;
+pub mod c02;
+pub mod c03;
+pub mod c04;
+pub mod c06;
+pub mod c07;
+pub mod c08;
+pub mod c09;
+pub mod c10;
+pub mod c16;
+pub mod c20;
 
 #[derive(Clone, Copy, Debug, PartialEq, Eq)]
 pub enum Tier {
@@ -38,11 +48,21 @@ impl Ctx {
     }
 }
 
-pub const ALL: &[&str] = &["C01"];
+pub const ALL: &[&str] = &["C01", "C02", "C03", "C04", "C08", "C20"];
 
 pub fn run_property(id: &str, ctx: &Ctx) -> Option<Report> {
     Some(match id {
         "C01" => c01::run(ctx),
+        "C02" => c02::run(ctx),
+        "C03" => c03::run(ctx),
+        "C04" => c04::run(ctx),
+        "C06" => c06::run(ctx),
+        "C07" => c07::run(ctx),
+        "C08" => c08::run(ctx),
+        "C09" => c09::run(ctx),
+        "C10" => c10::run(ctx),
+        "C16" => c16::run(ctx),
+        "C20" => c20::run(ctx),
         _ => return None,
     })
 }
@@ -51,6 +71,16 @@ pub fn run_property(id: &str, ctx: &Ctx) -> Option<Report> {
 pub fn replay_property(id: &str, section: &str, case: &Value) -> Option<Result<(), String>> {
     Some(match id {
         "C01" => c01::replay(section, case),
+        "C02" => c02::replay(section, case),
+        "C03" => c03::replay(section, case),
+        "C04" => c04::replay(section, case),
+        "C06" => c06::replay(section, case),
+        "C07" => c07::replay(section, case),
+        "C08" => c08::replay(section, case),
+        "C09" => c09::replay(section, case),
+        "C10" => c10::replay(section, case),
+        "C16" => c16::replay(section, case),
+        "C20" => c20::replay(section, case),
         _ => return None,
     })
 }
